@@ -6,7 +6,7 @@ import ast
 from ..boolean import Evaluator, Kind
 from ..core import AnalysisError, src
 from ..dynmodel import FRONT, HELD, TRANS, FnModel, cell, describe_world, equiv
-from ..guards import show
+from ..guards import show, walk_function
 from ..index import RepoIndex
 from .c08 import effect_class, effect_table
 
@@ -134,6 +134,42 @@ def door_flags(index, rep, rule: str, om) -> None:
                   f'a door with status {st} has flags {vals}, documented {want}', f'door {st}')
 
 
+def door_status_kind(index: RepoIndex, rep, rule: str) -> None:
+    """the flags test the status by identity (`self.state is Door.Status.LOCKED`), so what a
+    door stores as its status must be a member of Door.Status: the constructor stores its
+    parameter, which is declared `Door.Status` and nothing wider (a door built from a raw
+    integer index reports the right status index but is neither open, closed nor locked:
+    actuate_door then opens it without a key)"""
+    door = index.cls(GO, 'Door')
+    init = door.methods.get('__init__')
+    if init is None:
+        raise AnalysisError('anchor vanished: Door.__init__')
+    w = walk_function(init.node)
+    stores = [e for e in w.events if e.kind == 'attrstore' and src(e.target) == 'self.state']
+    if not stores:
+        raise AnalysisError('Door.__init__ does not store self.state')
+    anns = {a.arg: (src(a.annotation) if a.annotation is not None else '')
+            for a in init.node.args.args}
+    for e in stores:
+        v = w.expand(e.value) if e.value is not None else None
+        okv = False
+        why = ''
+        if isinstance(v, ast.Name) and v.id in anns:
+            ann = anns[v.id].strip('\'"')
+            okv = ann in ('Door.Status', 'Status')
+            why = f'parameter `{v.id}: {anns[v.id] or "<unannotated>"}`'
+        elif v is not None and src(v).startswith('Door.Status.') or \
+                (isinstance(v, ast.Call) and src(v.func) in ('Door.Status', 'self.Status')):
+            okv = True
+        else:
+            why = f'`{src(v) if v is not None else None}`'
+        rep.check(okv, rule, GO, 'Door.__init__', e.line, src(e.stmt),
+                  f'Door stores {why} as its status: not necessarily a member of Door.Status, '
+                  f'while is_open / is_locked test the status by identity -- a locked door built '
+                  f'from its integer index is not locked and opens without a key',
+                  'door status is a Door.Status member')
+
+
 def run(index: RepoIndex, rep) -> None:
     rep.rule('C10.R1', 'a door status is stored only by actuate_door, only with OPEN, only on '
              'the faced cell (effect table)', floor=2)
@@ -156,6 +192,7 @@ def run(index: RepoIndex, rep) -> None:
               'only the status')
     box_rule(index, rep, 'C10.R4', ev)
     door_flags(index, rep, 'C10.R5', ev.om)
+    door_status_kind(index, rep, 'C10.R5')
     # R6: the other transition functions never overwrite a door or a box
     rep.rule('C10.R7', 'the faced cell is the cell one step ahead of the agent for every '
              'heading (Agent.front, C18.R5)', floor=4)
